@@ -15,6 +15,7 @@ import numpy as np
 import z3
 
 RS = z3.RealSort()
+FRAC_DEFS = {}  # id of a floor-fraction constant -> the quotient term it is the fractional part of
 
 
 class PathAbort(BaseException):
@@ -155,6 +156,9 @@ class Ctx:
         self.queries = 0
         self.solver_s = 0.0
         self.floor_cache = {}
+        self.axioms_in_branch = False
+        self.floor_lemmas = False
+        self.floor_list = []
         self.inputs = {}  # name -> z3 const (harness inputs, for model extraction)
         self.notes = []
 
@@ -168,11 +172,16 @@ class Ctx:
         return list(self.side) + list(self.assume) + list(self.pc)
 
     def feasible(self, *extra):
+        """over-approximate feasibility (used only to prune exploration): first without the
+        transcendental axioms (fast), then, if that is sat, a short attempt with them."""
         from .solve import solve
 
         t = time.time()
         self.queries += 1
-        st, _ = solve(self.hyps() + list(extra), timeout_ms=self.branch_timeout_ms, want_model=False)
+        cs = self.hyps() + list(extra)
+        st, _ = solve(cs, timeout_ms=self.branch_timeout_ms, want_model=False, use_axioms=False)
+        if st == "sat" and self.axioms_in_branch:
+            st, _ = solve(cs, timeout_ms=max(300, self.branch_timeout_ms // 5), want_model=False)
         self.solver_s += time.time() - t
         return st != "unsat"
 
@@ -234,7 +243,7 @@ class Ctx:
                     if st == "unknown":
                         raise PathAbort("unsupported", "int fork: solver unknown")
                     break
-                v = model_value(model, expr)
+                v = model.value(expr)
                 k = int(math.floor(v + 0.5))
                 found.append(k)
                 if len(found) > self.max_int_fork:
@@ -276,7 +285,7 @@ class PathResult:
         self.ctx, self.value, self.error, self.abort = ctx, value, error, abort
 
 
-def explore(fn, max_paths=2000, branch_timeout_ms=3000, max_int_fork=16, wall_s=None):
+def explore(fn, max_paths=2000, branch_timeout_ms=3000, max_int_fork=16, wall_s=None, ctx_opts=None):
     """run fn() along every feasible path.  Returns (results, leftover_pending)."""
     pending = [[]]
     out = []
@@ -286,6 +295,8 @@ def explore(fn, max_paths=2000, branch_timeout_ms=3000, max_int_fork=16, wall_s=
             break
         preset = pending.pop()
         ctx = Ctx(preset, pending, branch_timeout_ms, max_int_fork)
+        for k, v in (ctx_opts or {}).items():
+            setattr(ctx, k, v)
         Ctx.cur = ctx
         try:
             res = fn(ctx)
@@ -558,29 +569,42 @@ class SymReal:
 
     # ---- floor division family
     def _floor_q(s, o):
-        """fresh Int q with q = floor(s / o)"""
+        """floor(s / o) as (q, f): fresh Int q and fresh Real f in [0,1) with s/o == q + f.
+        The integer unknown only occurs linearly; the remainder is f * o."""
         c = Ctx.cur
         a, b = s.e, R(o)
         key = (a.get_id(), b.get_id())
         if key in c.floor_cache:
             return c.floor_cache[key]
-        q = c.fresh("q", "I")
-        qr = z3.ToReal(q)
         if z3.is_rational_value(b):
             if _is_zero(b):
-                raise PathAbort("unsupported", "floor division by literal zero")
-            pos = b.numerator_as_long() > 0
-            c.side.append(z3.And(qr * b <= a, a < (qr + 1) * b) if pos else z3.And(qr * b >= a, a > (qr + 1) * b))
+                raise PathAbort("undefined", "floor division by literal zero")
         else:
             _assume(b != 0)
-            c.side.append(z3.If(b > 0, z3.And(qr * b <= a, a < (qr + 1) * b), z3.And(qr * b >= a, a > (qr + 1) * b)))
-        c.floor_cache[key] = q
-        return q
+        q = c.fresh("q", "I")
+        x = c.fresh("quot")
+        f = c.fresh("frac")
+        c.side += [x * b == a, f == x - z3.ToReal(q), f >= 0, f < 1]
+        FRAC_DEFS[f.get_id()] = (f, a / b)
+        # always-true lemma instances relating this quotient to earlier ones with the same divisor
+        # (they hand the solver the integer relation instead of leaving it to non-linear search)
+        for (a2, b2, q2, f2) in (c.floor_list if c.floor_lemmas else ()):
+            if b2.get_id() != b.get_id():
+                continue
+            lem = [z3.Implies(a <= a2, q <= q2), z3.Implies(a >= a2, q >= q2)]
+            for k in (-2, -1, 0, 1, 2):
+                lem.append(z3.Implies(a == a2 + k * b, z3.And(q == q2 + k, f == f2)))
+                lem.append(z3.Implies(a == -a2 + k * b,
+                                      z3.Or(z3.And(q == -q2 - 1 + k, f == 1 - f2), z3.And(f2 == 0, f == 0, q == -q2 + k))))
+            c.side.append(z3.Implies(b > 0, z3.And(*lem)))
+        c.floor_list.append((a, b, q, f))
+        c.floor_cache[key] = (q, f)
+        return q, f
 
     def __floordiv__(s, o):
         if _nd(o):
             return NotImplemented
-        q = s._floor_q(o)
+        q, f = s._floor_q(o)
         return SymReal(z3.ToReal(q), ie=q)
 
     def __rfloordiv__(s, o):
@@ -593,9 +617,11 @@ class SymReal:
             return NotImplemented
         if s.ie is not None and isinstance(o, (int, np.integer)) and int(o) > 0:
             m = s.ie % int(o)
+            if int(o) == 2:  # parity as a boolean case split rather than integer arithmetic
+                return SymReal(z3.If(m == 0, z3.RealVal(0), z3.RealVal(1)), ie=m)
             return SymReal(z3.ToReal(m), ie=m)
-        q = s._floor_q(o)
-        return SymReal(s.e - z3.ToReal(q) * R(o))
+        q, f = s._floor_q(o)
+        return SymReal(f * R(o))
 
     def __rmod__(s, o):
         if _nd(o):
@@ -605,8 +631,8 @@ class SymReal:
     def __divmod__(s, o):
         if _nd(o):
             return NotImplemented
-        q = s._floor_q(o)
-        return SymReal(z3.ToReal(q), ie=q), SymReal(s.e - z3.ToReal(q) * R(o))
+        q, f = s._floor_q(o)
+        return SymReal(z3.ToReal(q), ie=q), SymReal(f * R(o))
 
     def __rdivmod__(s, o):
         if _nd(o):
